@@ -650,3 +650,143 @@ def c05m(F, R):
                     R.ok(key, detail=f"`{C}` is walked where it can be non-empty", where=loc(iff))
     if n == 0:
         raise Anchor("no emptiness guard found in the lints (the rule would pass vacuously)")
+
+
+@rule("C05", "C05.n.lost-value-search", floor=3)
+def c05n(F, R):
+    """LostCalleeSavedRegisterCheck decides by a search: a write to a saved register that still holds the caller's value is reported exactly when no copy of that value (the same register, offset 0) is left in a stack slot or in a register. The search flag starts false, is only ever set to true, is set in the walk over the stack facts and in the walk over the register facts under `same register && offset == 0`, and the report sits under `!flag`: a dropped or inverted piece either silences the lint or makes it fire on every correctly saved register"""
+    from .p_cfg import pass_impls, LINTPASS
+    from .p_parse import parent_map
+    from .facts import path_forces, local_inits
+    LE = "riscv_analysis::passes::lint_error::LintError"
+    AVO = "OriginalRegisterWithScalar"
+    lints = pass_impls(F, LINTPASS)
+    rp = [v for t, v in lints.items() if t.endswith("LostCalleeSavedRegisterCheck")]
+    if not rp:
+        raise Anchor("LostCalleeSavedRegisterCheck not found")
+    g = F.fn(rp[0])
+    body = g["hir"]["value"]
+    pm = parent_map(body)
+    pushes = [p_ for p_ in walk(body, pats=False) if p_.get("k") == "MethodCall" and p_["name"] == "push" and p_["args"] and any((callee_of(c) or "") == f"{LE}::LostRegisterValue" for c in walk(p_["args"][0], pats=False) if c.get("k") == "Call")]
+    if len(pushes) != 1:
+        R.bad("shape", f"UNEXTRACTABLE: expected one push of LostRegisterValue, found {len(pushes)}", g["sp"])
+        return
+    flags = [st for st in walk(body, pats=False) if st.get("k") == "Let" and st["pat"].get("k") == "PBinding" and lit_value(st.get("init") or {}) is False and ", Mut)" in (st["pat"].get("mode") or "")]
+    # the flag the report depends on
+    flag = None
+    for st in flags:
+        nm = st["pat"]["name"]
+
+        def classify(e, nm=nm):
+            return "flag" if (e.get("k") == "Path" and e.get("res_kind") == "Local" and e.get("res") == nm) else None
+        if path_forces(pm, pushes[0], classify, "flag", False):
+            flag = (st, nm, False)
+        elif path_forces(pm, pushes[0], classify, "flag", True):
+            flag = (st, nm, True)
+    if flag is None:
+        # no mutable flag: the decision is written as an expression over `any(..)` of the two fact sources - evaluate it
+        from .facts import path_constraints, bool3
+        lets = local_inits(body)
+
+        def src_of(m):
+            seen = list(walk_expanded(m["recv"], lets))
+            for s_ in ("memory_values_out", "reg_values_out"):
+                if any(y.get("k") == "MethodCall" and y["name"] == s_ for y in seen):
+                    return s_
+            return None
+
+        def cls(e):
+            if e.get("k") == "MethodCall" and e["name"] == "any":
+                return src_of(e)
+            return None
+        from .facts import walk_expanded
+        cons = path_constraints(pm, pushes[0])
+        table = {}
+        for sv in (True, False):
+            for rv in (True, False):
+                vals = [bool3(c, cls, {"memory_values_out": sv, "reg_values_out": rv}, lets) for c, want in cons]
+                reach = all((v is None) or (v == want) for v, (c, want) in zip(vals, cons))
+                decided = any(v is not None for v in vals)
+                table[(sv, rv)] = reach if decided else None
+        if any(v is None for v in table.values()):
+            R.bad("flag", "UNEXTRACTABLE: the report of LostRegisterValue depends neither on a search flag nor on `any(..)` over the stack and the register facts", loc(pushes[0]))
+            return
+        if table == {(True, True): False, (True, False): False, (False, True): False, (False, False): True}:
+            R.ok("report-polarity", detail="LostRegisterValue is reported exactly when neither the stack facts nor the register facts hold a copy", where=loc(pushes[0]))
+            for s_ in ("memory_values_out", "reg_values_out"):
+                R.ok(f"search|{s_}", detail=f"`any` over `{s_}` takes part in the decision (its closure is not evaluated by this rule)")
+        else:
+            R.bad("report-polarity", f"LostRegisterValue is reported under (copy on the stack, copy in a register) -> {table}; it must be reported only when there is neither", loc(pushes[0]))
+        return
+    st, nm, forced = flag
+    if forced is False:
+        R.ok("report-polarity", detail=f"LostRegisterValue is reported when `{nm}` is still false: no copy of the caller's value was found", where=loc(pushes[0]))
+    else:
+        R.bad("report-polarity", f"LostRegisterValue is reported when the search flag `{nm}` is TRUE - when a copy of the caller's value exists: the lint fires on every correctly saved register and keeps silent on a lost one", loc(pushes[0]))
+    # every assignment sets it to true
+    assigns = [a for a in walk(body, pats=False) if a.get("k") == "Assign" and peel(a["l"]).get("k") == "Path" and peel(a["l"]).get("res") == nm]
+    for i_, a in enumerate(assigns):
+        if lit_value(a["r"]) is True:
+            continue
+        R.bad(f"assign#{i_ + 1}", f"the search flag `{nm}` is assigned something other than `true` inside the search: a found copy is forgotten and the lint fires although the register was saved", loc(a))
+    # both fact sources are searched, and each search sets the flag under `same register && offset == 0`
+    for src in ("memory_values_out", "reg_values_out"):
+        loops = [fl for fl in for_loops(body) if any(y.get("k") == "MethodCall" and y["name"] == src for y in walk(fl["iter"], pats=False))
+                 or any(y.get("k") == "Path" and y.get("res_kind") == "Local" and any(z.get("k") == "MethodCall" and z["name"] == src for z in walk(local_inits(body).get(y["res"], {}), pats=False)) for y in walk(fl["iter"], pats=False))]
+        key = f"search|{src}"
+        if not loops:
+            R.bad(key, f"the search does not look at `{src}`: a caller's value kept {'on the stack' if 'memory' in src else 'in another register'} is not recognised and the lint fires on correct code", st["sp"] if "sp" in st else g["sp"])
+            continue
+        sets = [a for fl in loops for a in walk(fl["body"], pats=False) if a in assigns or any(a is b for b in assigns)]
+        if not sets:
+            R.bad(key, f"the walk over `{src}` never sets `{nm}`: a copy of the caller's value {'in a stack slot' if 'memory' in src else 'in a register'} is not recognised - `sw s0, 0(sp)` before the write no longer counts as saving it", loc(loops[0]["node"]))
+            continue
+        a = sets[0]
+        # the guards between the loop and the assignment
+        variant_ok = False
+        conds = []
+        x = a
+        while id(x) in pm and x is not loops[0]["body"]:
+            par = pm[id(x)]
+            if par.get("k") == "If":
+                c = par["cond"]
+                while c.get("k") in ("DropTemps", "Use"):
+                    c = c["e"]
+                if c.get("k") == "LetExpr":
+                    if any(short(v or "") == AVO for k_, v in pat_variants(c["pat"]) if k_ == "path") or any((y.get("res") or "").endswith("::" + AVO) for y in walk(c["pat"])):
+                        variant_ok = True
+                else:
+                    conds.append(c)
+            if par.get("k") == "Match" and not par.get("src"):
+                for arm in par["arms"]:
+                    if any(y is x for y in walk(arm["body"], pats=False)) or arm["body"] is x:
+                        if any((y.get("res") or "").endswith("::" + AVO) for y in walk(arm["pat"])):
+                            variant_ok = True
+                        if arm.get("guard") is not None:
+                            conds.append(arm["guard"])
+            x = par
+
+        def cls(e):
+            if e.get("k") == "Binary" and e["op"] in ("Eq", "Ne") and (lit_value(e["a"]) == 0 or lit_value(e["b"]) == 0):
+                return "zero" if e["op"] == "Eq" else "nonzero"
+            if e.get("k") == "Binary" and e["op"] in ("Eq", "Ne") and any(y.get("k") == "MethodCall" and y["name"] in ("get", "get_cloned") for y in walk(e, pats=False)):
+                return "same" if e["op"] == "Eq" else "other"
+            return None
+        wrong = None
+        try:
+            import itertools
+            for same, zero in itertools.product((True, False), repeat=2):
+                env = {"same": same, "other": not same, "zero": zero, "nonzero": not zero}
+                got = all(bool_eval(c, cls, env) for c in conds)
+                if got != (same and zero):
+                    wrong = f"same register={same}, offset is 0={zero} -> flag set: {got}"
+                    break
+        except BoolUnx as ex:
+            R.bad(key + "|unextractable", f"UNEXTRACTABLE: condition of the `{src}` search ({ex})", loc(a))
+            continue
+        if not variant_ok:
+            R.bad(key, f"the `{src}` search does not test for an `OriginalRegisterWithScalar` fact", loc(a))
+        elif wrong:
+            R.bad(key, f"the `{src}` search sets the flag under the wrong condition ({wrong}); it must be exactly `same register && offset == 0`: otherwise a moved copy (`addi`) counts as the saved value, or the saved value itself does not", loc(a))
+        else:
+            R.ok(key, detail=f"`{nm}` is set when `{src}` holds OriginalRegisterWithScalar(the written register, 0)", where=loc(a))
